@@ -442,6 +442,46 @@ func runC08RdnsRealTime(c *fw.Ctx, id string) {
 	}
 }
 
+// runC08PublicIPOverlap: two overlapping lookups through ONE fetcher (what two requests served by one Traceroute or
+// server object do) against providers that accept the request and never answer. A lookup's duration is bounded by its
+// own context and the per-provider timeouts, not by the other lookup's: a lock held across the provider walk cannot be
+// left by a caller whose context ended. Blocked mutexes do not let a bubble's clock advance, so this runs on the REAL
+// clock with a coarse threshold: the second caller's context ends after 200 ms, the verdict threshold is 1.5 s, the
+// first caller is released after 3 s.
+func runC08PublicIPOverlap(c *fw.Ctx, id string) {
+	resetProcessState()
+	rt := &stallRT{behave: map[string]string{}, release: make(chan struct{})}
+	for _, h := range providerHosts {
+		rt.behave[h] = "hang-before-headers"
+	}
+	f := publicip.VerifNewPublicIPFetcher(&http.Client{Transport: rt})
+	ctx1, cancel1 := context.WithTimeout(context.Background(), 3*time.Second)
+	defer cancel1()
+	first := make(chan struct{})
+	go func() { defer close(first); f.GetIP(ctx1) }()
+	time.Sleep(50 * time.Millisecond)
+	ctx2, cancel2 := context.WithTimeout(context.Background(), 200*time.Millisecond)
+	defer cancel2()
+	t0 := time.Now()
+	_, err := f.GetIP(ctx2)
+	el := time.Since(t0)
+	cancel1()
+	select {
+	case <-first:
+	case <-time.After(10 * time.Second):
+		close(rt.release)
+		<-first
+	}
+	c.Nontrivial("publicip-overlap-realtime")
+	c.Count("publicip_overlap_ms", int(el.Milliseconds()))
+	if err == nil {
+		c.Violate("C08", "publicip-overlap-no-error", fmt.Sprintf("%s: a lookup against providers that never answer succeeded", id), nil)
+	}
+	if el > 1500*time.Millisecond {
+		c.Violate("C08", "publicip-overlap-queued", fmt.Sprintf("%s: a public-IP lookup whose context ended after 200 ms returned after %v of real time while another lookup through the same fetcher was stalled", id, el.Round(10*time.Millisecond)), nil)
+	}
+}
+
 // runC08SackSilentTarget: a SACK run against a target that silently drops the SYN (an address behind the peer
 // namespace, which does not forward). The TCP dial is a real syscall, so this runs on the REAL clock, outside a
 // bubble. The dial must be abandoned after HandshakeTimeout (300 ms); the whole-run deadline (handshake + FIN
@@ -588,7 +628,7 @@ func checkC08() fw.Check {
 	return fw.Check{
 		Prop:  "C08",
 		Level: "exploration",
-		Rule: "all times are virtual (testing/synctest): (1) every variant under network behaviours {silence, 10^4/s flood of irrelevant frames, malformed flood, bursts of 10^3 frames at one instant, a hop or the destination duplicating its valid matching reply several times per poll interval beyond the deadline} must end within the closed-form bound (parallel: timeout + n*delay + poll; serial: n*(timeout+poll+delay); SACK adds dial + 500 ms handshake); (2) engine runs (scripted driver, and the real ICMP and SACK entry points) cancelled before start, at every send/poll boundary +-1 us and at seeded instants must return context.Canceled within one poll interval + one send delay of the cancel instant; (3) GetPublicIP, the reverse-DNS batch and whole RunTraceroute requests against scripted HTTP/DNS responders that stall exactly like http.Transport would (hang before headers, hang after headers, slow and very slow bodies, errors) must end within their bounds; an in-bubble watchdog at 4x the bound records a hang and then releases the stalled responder so the case can finish. " +
+		Rule: "all times are virtual (testing/synctest): (1) every variant under network behaviours {silence, 10^4/s flood of irrelevant frames, malformed flood, bursts of 10^3 frames at one instant, a hop or the destination duplicating its valid matching reply several times per poll interval beyond the deadline} must end within the closed-form bound (parallel: timeout + n*delay + poll; serial: n*(timeout+poll+delay); SACK adds dial + 500 ms handshake); (2) engine runs (scripted driver, and the real ICMP and SACK entry points) cancelled before start, at every send/poll boundary +-1 us and at seeded instants must return context.Canceled within one poll interval + one send delay of the cancel instant; (3) GetPublicIP, the reverse-DNS batch and whole RunTraceroute requests against scripted HTTP/DNS responders that stall exactly like http.Transport would (hang before headers, hang after headers, slow and very slow bodies, errors) must end within their bounds, and (real clock, coarse) a lookup whose context ends must return although another lookup through the same fetcher is stalled; an in-bubble watchdog at 4x the bound records a hang and then releases the stalled responder so the case can finish. " +
 			"distinct_nontrivial counts distinct (workload, variant/engine, behaviour/cancel class) signatures executed",
 		Workers:       1,
 		MinNontrivial: 40,
@@ -597,6 +637,7 @@ func checkC08() fw.Check {
 			var cases []fw.Case
 			// first: if this one already shows a serialised fan-out, the bubble cases below would stall on it
 			cases = append(cases, fw.Case{ID: "C08/rdns-realtime", Run: func(c *fw.Ctx) { runC08RdnsRealTime(c, c.ID) }})
+			cases = append(cases, fw.Case{ID: "C08/publicip-overlap-realtime", Run: func(c *fw.Ctx) { runC08PublicIPOverlap(c, c.ID) }})
 			cases = append(cases, fw.Case{ID: "C08/sack-silent-target", Run: func(c *fw.Ctx) { runC08SackSilentTarget(c, c.ID) }})
 			wins := []window{{1, 6}}
 			if tier == "thorough" {
